@@ -754,7 +754,7 @@ class KlongInterpreter():
                 return self._eval_fn(x)
         elif isinstance(x, KGCond):
             q = self.call(x[0])
-            p = not ((self._backend.is_number(q) and q == 0) or is_empty(q))
+            p = kg_is_true(q, self._backend)
             return self.call(x[1]) if p else self.call(x[2])
         elif isinstance(x, KGExprArray):
             results = [self.call(e) for e in x]
